@@ -870,6 +870,8 @@ func (fr *Frame) callCommon(cc *ssa.CallCommon, args []Val, fv Val, res ssa.Valu
 		}
 	}
 	if sp != nil {
+		fr.callCallee, fr.callBindings = callee, bindings
+		defer func() { fr.callCallee, fr.callBindings = nil, nil }()
 		return fr.applyContract(sp, name, callee.Signature, args, false, resT)
 	}
 	if e.inRepo(callee) {
@@ -1110,6 +1112,17 @@ func (fr *Frame) applyContract(sp *FuncSpec, name string, sig *types.Signature, 
 			env.names[p.Name()] = args[ai+i]
 		}
 		env.names[fmt.Sprintf("arg%d", i)] = args[ai+i]
+	}
+	// a closure called under its own contract: its captured variables are visible by name
+	if fr.callCallee != nil && len(fr.callBindings) == len(fr.callCallee.FreeVars) {
+		for i, fv := range fr.callCallee.FreeVars {
+			b := fr.callBindings[i]
+			if p, ok := b.Ty.Underlying().(*types.Pointer); ok {
+				if _, exists := env.names[fv.Name()]; !exists {
+					env.names[fv.Name()] = Val{T: e.loadAt(fr.cur.st, b.T, b.Src, p.Elem()), Ty: p.Elem()}
+				}
+			}
+		}
 	}
 	// integer- and string-valued arguments are candidate instantiation terms for quantified facts
 	for _, a := range args {
@@ -1452,6 +1465,9 @@ func (fr *Frame) builtin(b *ssa.Builtin, cc *ssa.CallCommon, args []Val, resT ty
 				return Val{T: fmt.Sprint(arr.Len()), Ty: resT}
 			}
 		case *types.Map:
+			if a.From != nil {
+				fr.lockCheck(Val{Src: a.From}, false)
+			}
 			f := e.sc.declFun("maplen", []string{"(Array " + e.sortOf(u.Key()) + " Bool)"}, "Int")
 			dom, _ := e.mapComps(u)
 			r := "(" + f + " (select " + e.get(st, dom) + " " + a.T + "))"
